@@ -332,22 +332,39 @@ pub fn family() -> impl Strategy<Value = Vec<Vec<u8>>> {
 
 /// Evaluate a family under `eval` (the observable result as a string) and demand history independence.
 pub fn check_family(ctx: &Ctx, tag: &str, fam: &[Vec<u8>], eval: &(dyn Fn(&[u8]) -> String + Sync)) -> Check {
-    const FLUSH: [u8; 7] = [0x5d, 0x48, 0x40, 0xd6, 0x20, 0x2c, 0xc3]; // an all-call reply, unrelated to every family
+    // inputs unrelated to every family, one per kind of state a decoder might keep (per downlink format, per Comm-B
+    // payload, per ADS-B type): evaluated together they evict single-entry caches of any of these kinds
+    let flushes: [&[u8]; 9] = [
+        &[0x5d, 0x48, 0x40, 0xd6, 0x20, 0x2c, 0xc3],
+        &[0x02, 0xe1, 0x98, 0x38, 0x1f, 0x6a, 0x2b],
+        &[0x20, 0x00, 0x17, 0x18, 0x5d, 0x33, 0x09],
+        &[0x28, 0x00, 0x1a, 0x1b, 0x64, 0x21, 0x7c],
+        &[0x8d, 0x40, 0x6b, 0x90, 0x20, 0x15, 0xa6, 0x78, 0xd4, 0xd2, 0x20, 0xaa, 0x4b, 0xda],
+        &[0x90, 0x40, 0x6b, 0x90, 0x58, 0xb9, 0x82, 0x6c, 0x51, 0x3b, 0x1a, 0x5e, 0x44, 0x20],
+        &[0xa0, 0x00, 0x18, 0x38, 0x20, 0x15, 0x84, 0xf2, 0x34, 0x68, 0x20, 0x7c, 0xdf, 0xa5],
+        &[0xa8, 0x00, 0x1e, 0xbc, 0xff, 0xfb, 0x23, 0x28, 0x60, 0x04, 0xa7, 0x3f, 0x6a, 0x5b],
+        &[0x80, 0xe1, 0x96, 0x90, 0x58, 0xb5, 0x01, 0x63, 0x87, 0xa2, 0xb4, 0xc9, 0xc5, 0x7a],
+    ];
+    let flush = || {
+        for f in flushes {
+            let _ = eval(f);
+        }
+    };
     let rep = serde_json::json!({"kind": "family", "frames": fam.iter().map(hex::encode).collect::<Vec<_>>()});
     let mut seen: Vec<Vec<String>> = vec![vec![]; fam.len()];
-    let _ = eval(&FLUSH);
+    flush();
     for (i, f) in fam.iter().enumerate() {
         seen[i].push(eval(f));
     }
-    let _ = eval(&FLUSH);
+    flush();
     for (i, f) in fam.iter().enumerate().rev() {
         seen[i].push(eval(f));
     }
     for (i, f) in fam.iter().enumerate() {
-        let _ = eval(&FLUSH);
+        flush();
         seen[i].push(eval(f));
     }
-    ctx.evals(3 * fam.len() as u64);
+    ctx.evals((3 * fam.len() + 9 * (2 + fam.len())) as u64);
     for (i, s) in seen.iter().enumerate() {
         // equal inputs in one family share their results
         if let Some(k) = (1..s.len()).find(|k| s[*k] != s[0]) {
